@@ -7,6 +7,7 @@ Models: ImmuModel/Tx/Header.lean (Alh), ImmuModel/Store/Proofs.lean (the verifie
 embedded/store/verification.go, branch by branch), ImmuModel/Store/History.lean.
 -/
 import ImmuModel.Store.Proofs.C01Proofs
+import ImmuModel.Store.Proofs.C01Complete
 
 namespace ImmuModel.Props.C01
 open ImmuModel ImmuModel.Tx ImmuModel.Merkle ImmuModel.Store
@@ -28,6 +29,18 @@ tx `t` start from the same accumulated hash of tx `s` (or exhibit a collision). 
 theorem chain_commits_to_past (hs : Hs D) (s t : Nat) (a a' c : D) (ht : t < 2 ^ 64)
     (h1 : LinExt hs s a t c) (h2 : LinExt hs s a' t c) : a = a' ∨ HColl hs :=
   linExt_backward_unique hs s t a a' c ht h1 h2
+
+/-- **Completeness.** For every well-formed history with ANY binary-linking lag (monotone between
+the two headers) and every `1 ≤ s ≤ t ≤ n`, the proof the store generates (model of
+`ImmuStore.DualProof`, tied byte-exact to the code by the correspondence) is accepted by the
+verifier for the genuine states. -/
+theorem dualProof_completeness [Inhabited D] (hs : Hs D) (hdrs : List (TxHeader D)) (alhs : List D) (aht : AHT D)
+    (H : Hist hs hdrs alhs) (ha : buildAht hs alhs = some aht)
+    (s t : Nat) (h1 : 1 ≤ s) (h2 : s ≤ t) (h3 : t ≤ alhs.length)
+    (hmono : (hdrs[s-1]'(by rw [H.len]; omega)).blTxID ≤ (hdrs[t-1]'(by rw [H.len]; omega)).blTxID) :
+    ∃ p, dualProof hs ⟨hdrs, alhs, aht⟩ s t = some p ∧
+      verifyDualProof hs (some p) s t (alhs[s-1]'(by omega)) (alhs[t-1]'(by omega)) = some true :=
+  dualProof_complete hs hdrs alhs aht H ha s t h1 h2 h3 hmono
 
 /-- **Tree binding (no forged leaf at the trusted position).**  For an ARBITRARY (possibly
 malicious) target header and proof: if `VerifyDualProof` accepts, then whatever list of accumulated
